@@ -131,3 +131,21 @@ def sql_structure_triggers(t, dialect):
         if n[0] == "call" and n[1] in ("floor", "ceiling") and dialect == "standard":
             keys.append("sql-standard-floor-ceiling-template")
     return keys
+
+
+def _has_null_left(t):
+    return any(n[0] == "cmp" and n[2] == ("lit", "null", "null") for n in T.walk(t))
+
+
+def sqlite_semantic_triggers(t, flags, prob):
+    """C01: mechanisms of the raw SQLite dialect (flags come from the reference evaluation)."""
+    keys = []
+    if "like-literal-pattern-wildcard" in flags:
+        keys.append("sql-like-pattern-wildcards-not-escaped")
+    if "like-nonliteral-pattern-wildcard" in flags:
+        keys.append("sql-like-column-pattern-not-escaped")
+    if "round-negative" in flags:
+        keys.append("sqlite-round-negative")
+    if _has_null_left(t):
+        keys.append("null-literal-on-the-left")
+    return keys
